@@ -29,6 +29,8 @@ From V Require Import Calc.StreamDefs.
 From V Require Import Proto.FutureDefs.
 From V Require Import Calc.TaskDefs.
 From V Require Import Proto.UnsafeLoopDefs.
+From V Require Import Proto.BasicSenderDefs.
+From V Require Import Proto.ThreadPoolDefs.
 Extraction Blacklist List String Int.
 Cd "../ocaml".
 Extraction "model.ml"
@@ -183,5 +185,15 @@ Extraction "model.ml"
   UnsafeLoop.crashed
   UnsafeLoop.now
   UnsafeLoop.inloop
+  CalcTraits.rt_blocking_of
+  BasicSender.step
+  BasicSender.init
+  BasicSender.completions
+  BasicSender.late
+  BasicSender.destroyed
+  ThreadPool.step
+  ThreadPool.init
+  ThreadPool.final
+  ThreadPool.queued
   (*END*).
 Cd "../coq".
